@@ -95,7 +95,37 @@ def x_processor_consts():
         raise Broken("message.go: without a panic the settlement comparison must be the else-branch of the stored-VAA decode (existing would be nil)")
     if not re.search(r'if v\.EmitterAddress == p\.governanceEmitterAddress && v\.EmitterChain == p\.governanceChainId \{(?:[^}]|\n)*?return\s*\n\s*\}', ms):
         raise Broken("message.go: governance-emitter drop not found")
-    out = ("Definition ns_second : Z := 1000000000.\n"
+    # observation.go: the two quorum comparisons, the sets they are computed over, the verification call, the snapshot choice
+    ob = rd("node/pkg/processor/observation.go")
+    bc = rd("node/pkg/processor/broadcast.go")
+    mq = re.search(r'quorum := CalculateQuorum\(len\(gs\.Keys\)\)(.*?)if len\(sigs\) (>=|>) quorum && !p\.state\.vaaSignatures\[hash\]\.submitted \{', ob, re.S)
+    if not mq:
+        raise Broken("observation.go: local quorum test `len(sigs) >= quorum && !submitted` over CalculateQuorum(len(gs.Keys)) not found")
+    local_cmp = mq.group(2)
+    mi = re.search(r'quorum := CalculateQuorum\(len\(p\.gs\.Keys\)\)\s*if len\(v\.Signatures\) (<|<=) quorum \{', ob)
+    if not mi:
+        raise Broken("observation.go: inbound quorum test `len(v.Signatures) < quorum` over CalculateQuorum(len(p.gs.Keys)) not found")
+    inbound_cmp = mi.group(1)
+    tail = ob[mi.end():]
+    i1 = tail.find("if !v.VerifySignatures(p.gs.Keys) {")
+    i2 = tail.find("_, err = p.db.GetSignedVAABytes(*db.VaaIDFromVAA(v))")
+    i3 = tail.find("p.db.StoreSignedVAA(v)")
+    if not (0 <= i1 < i2 < i3):
+        raise Broken("observation.go: inbound path must verify the signatures against p.gs.Keys, then look the id up, then store")
+    if not re.search(r'_, err = p\.db\.GetSignedVAABytes\(\*db\.VaaIDFromVAA\(v\)\)\s*if err == nil \{(?:[^}]|\n)*?return\s*\n\s*\} else if err != db\.ErrVAANotFound \{(?:[^}]|\n)*?return', tail):
+        raise Broken("observation.go: inbound path must return when the id is already stored (or the lookup fails)")
+    if not re.search(r'if p\.state\.vaaSignatures\[hash\] != nil && p\.state\.vaaSignatures\[hash\]\.gs != nil \{\s*gs = p\.state\.vaaSignatures\[hash\]\.gs\s*\} else \{\s*gs = p\.gs\s*\}', ob):
+        raise Broken("observation.go: choice of the applicable guardian set (entry snapshot, else current) not found")
+    if not re.search(r'p\.state\.vaaSignatures\[hash\]\.gs = p\.gs', bc) or not re.search(r'p\.state\.vaaSignatures\[hash\]\.ourVAA = v', bc):
+        raise Broken("broadcast.go: snapshot of the current set together with ourVAA not found")
+    if not re.search(r'for i, a := range gs\.Keys \{\s*s, ok := p\.state\.vaaSignatures\[hash\]\.signatures\[a\]', ob):
+        raise Broken("observation.go: assembly loop over gs.Keys not found")
+    out = ("(* observation.go: `if len(sigs) %s quorum && !submitted` *)\n"
+           "Definition proc_local_quorum_reached (q n : Z) : bool := %s.\n"
+           "(* observation.go (inbound): `if len(v.Signatures) %s quorum { return }` *)\n"
+           "Definition proc_inbound_below_quorum (n q : Z) : bool := %s.\n"
+           % (local_cmp, "(q <=? n)" if local_cmp == ">=" else "(q <? n)", inbound_cmp, "(n <? q)" if inbound_cmp == "<" else "(n <=? q)"))
+    out += ("Definition ns_second : Z := 1000000000.\n"
            "Definition proc_settlement_ns : Z := %d.\nDefinition proc_retry_ns : Z := %d.\nDefinition proc_tick_ns : Z := %d.\n"
            "Definition proc_submitted_expiry_ns : Z := %d.\nDefinition proc_retry_after_ns : Z := %d.\n"
            "Definition proc_own_retry_budget : Z := %d.\nDefinition proc_nil_retry_budget : Z := %d.\n"
@@ -107,7 +137,7 @@ def x_processor_consts():
            "Definition proc_stored_unmarshal_failure_panics : bool := %s.\n"
            % (settle, retry, tick, hours * 3600 * 10**9, minutes * 60 * 10**9, own_budget, nil_budget,
               "true" if guard else "false", "true" if nil_branch_uses_cur else "false", "true" if stored_panics else "false"))
-    return out, {"settlement_ns": settle, "retry_ns": retry, "tick_ns": tick, "hours": hours, "minutes": minutes,
+    return out, {"local_quorum_cmp": local_cmp, "inbound_quorum_cmp": inbound_cmp, "settlement_ns": settle, "retry_ns": retry, "tick_ns": tick, "hours": hours, "minutes": minutes,
                  "own_budget": own_budget, "nil_budget": nil_budget, "nil_gs_guarded": guard, "stored_unmarshal_panics": stored_panics}
 
 EXTRACTORS = [("processor_consts", x_processor_consts)]
